@@ -14,7 +14,9 @@ EXPLANATION = (
     "DispatchError before any call when absent and calls exactly one handler with the parameters unchanged and in order, on both "
     "dispatchers; (R4) register/unregister are symmetric: same iteration over dir(resource), same filter, register_function("
     "attr._event, attr) <-> unregister_function(attr._event) without a pre-test on a raw key; (R5) the decorators record the "
-    "annotation of the message parameter (index 3 of 4 / 2 of 3). Does not decide behaviour over operation sequences."
+    "annotation of the message parameter (index 3 of 4 / 2 of 3); (R7) entries leave the table only on request: removals lie in "
+    "unregister_function, which only unregister uses, and unregister is used nowhere inside the package (a refused registration "
+    "must not be undone by event name). Does not decide behaviour over operation sequences."
 )
 ASSUMPTIONS = ["classes in different modules with the same __name__ are out of scope (documented limitation of the dispatcher)"]
 
@@ -294,4 +296,44 @@ def r_idioms(ctx):
     repo_idioms(ctx, "C20.R6", ('dispatch',))
 
 
-RULES = [("C20.R1", r1), ("C20.R2", r2), ("C20.R3", r3), ("C20.R4", r4), ("C20.R5", r5), ("C20.R6", r_idioms)]
+def r7(ctx):
+    """entries leave the table only on request: the statements that remove from registered_events lie in unregister_function,
+    the package calls unregister_function only from unregister and unregister from nowhere - in particular not from the
+    registration side (a refused or failed registration must leave the handlers of other resources where they are)"""
+    uf = ctx.fn(D + "unregister_function")
+    removers = []
+    for q, fi in ctx.repo.funcs.items():
+        if fi.is_lambda or fi.module.name != "dispatch":
+            continue
+        for n in walk_own(fi.node):
+            hit = None
+            if isinstance(n, ast.Delete) and any("registered_events" in norm(t) for t in n.targets):
+                hit = norm(n)
+            elif isinstance(n, ast.Call) and isinstance(n.func, ast.Attribute) and n.func.attr in ("pop", "popitem", "clear", "__delitem__") and norm(n.func.value).endswith("registered_events"):
+                hit = norm(n)
+            elif isinstance(n, (ast.Assign, ast.AugAssign, ast.AnnAssign)) and fi.name != "__init__" \
+                    and any(isinstance(t, ast.Attribute) and t.attr == "registered_events" for t in (n.targets if isinstance(n, ast.Assign) else [n.target])):
+                hit = norm(n)
+            if hit:
+                removers.append((fi.qual, hit))
+    ctx.expect("C20.R7", "statements that remove from registered_events", len(removers), 1)
+    ctx.check(all(q == uf.qual for q, _ in removers), "C20.R7", uf, "entries are removed from registered_events only in unregister_function",
+              "a handler stays registered until its own unregistration", witness=removers)
+    callers = {"unregister_function": [], "unregister": []}
+    for q, fi in ctx.repo.funcs.items():
+        if fi.is_lambda:
+            continue
+        for n in walk_own(fi.node):
+            if isinstance(n, ast.Attribute) and n.attr in callers and isinstance(n.ctx, ast.Load):
+                callers[n.attr].append(fi.qual)
+            elif isinstance(n, ast.Name) and n.id in callers and isinstance(n.ctx, ast.Load):
+                callers[n.id].append(fi.qual)
+    ctx.check(set(callers["unregister_function"]) <= {D + "unregister"}, "C20.R7", uf, "unregister_function is used only by unregister",
+              "nothing in the package removes a handler on its own account (for instance to undo a refused registration)", witness=sorted(set(callers["unregister_function"])))
+    ur = ctx.fn(D + "unregister")
+    ctx.check(not callers["unregister"], "C20.R7", ur, "unregister is not used inside the package",
+              "unregistration by event name removes whoever holds the name: undoing a refused registration with it removes the handler that caused the refusal",
+              witness=sorted(set(callers["unregister"])))
+
+
+RULES = [("C20.R1", r1), ("C20.R2", r2), ("C20.R3", r3), ("C20.R4", r4), ("C20.R5", r5), ("C20.R6", r_idioms), ("C20.R7", r7)]
